@@ -926,6 +926,30 @@ def run_dm(case, out, env):
             if nbad > 5:
                 break
         out.outcome(('dist2', d, round(float(np.real(v)), 4) if v.shape == () else None), nontrivial=i != j)
+    # ---- mixed dtypes: a real-valued state handed over in the real dtype of the same precision against a complex one, both orders
+    # (numpy and torch promote real - complex on their own; the distance must not depend on which operand carries the dtype)
+    if dt in ('c128', 'c64') and not real:
+        rdt = 'f64' if dt == 'c128' else 'f32'
+        real_idx = [i for i in range(len(X)) if np.abs(np.asarray(X[i]).imag).max() == 0]
+        cplx_idx = [j for j in range(len(X)) if np.abs(np.asarray(X[j]).imag).max() > 0]
+        nbad = 0
+        for i in real_idx:
+            xr = make_input(backend, rdt, X[i], 'C')[0]
+            for j in cplx_idx:
+                for order in ('real,complex', 'complex,real'):
+                    out.state()
+                    a, b = (xr, ins[j][0]) if order == 'real,complex' else (ins[j][0], xr)
+                    ok, v = call(cfg, 'dm', 'get_density_matrix_distance2[mixed dtype]', gm.get_density_matrix_distance2, a, b)
+                    if not ok:
+                        continue
+                    v = to_np(v)
+                    expd = float(np.sum((bl_ref[i] - bl_ref[j]) ** 2))
+                    if (v.shape != () or not np.isfinite(v) or abs(complex(v) - expd) > t1) and nbad < 6:
+                        nbad += 1
+                        out.violation('dm/get_density_matrix_distance2/%s/wrong_value/mixed_dtype/%s' % (backend, order),
+                                      'squared distance of %s (%s) and %s (%s), given as (%s), is %s; squared Euclidean distance of the Bloch vectors is %.12g'
+                                      % (labels[i], rdt, labels[j], dt, order, v, expd), **cfg.detail(rho=X[i], sigma=X[j], got=v, expected=expd, tol=t1))
+                    out.count('distance2_mixed_dtype_pairs')
     # ---- band next to the maximally mixed state: Bloch vector, norm, and squared distance on all ordered pairs
     if dt != INT_DTYPE:
         blabels, B = band_alphabet(d, real, case['deep'])
